@@ -81,12 +81,23 @@ def check_case(ctx, ch, nprod, nper, mode, sched, engine, variant="san"):
     if r.get("timeout") and not finished:
         # the run did not get through within the worker's 20 s budget: either the chart never stabilises for this event order
         # (then this is no statement about the queue) or events are stuck
-        probe = model.Model(ch, max_micro=3000)
-        ptr = probe.run(list(ext))
-        if ptr and ptr[-1] == ('budget',):
-            ctx.notes['skipped_unbounded_at_runtime'] += 1
-            ctx.evaluations += 1
-            return
+        # ... judged by the reference model and by the exact models of the recorded selection findings (an engine that selects
+        # per F-C01-1 / F-C03-1 may loop where the W3C selection does not)
+        # the event that started the endless cascade may not have been recorded as dequeued yet: also try every event that can
+        # come next (the next unprocessed one of each producer), and two of them
+        nxt = []
+        for q in range(nprod):
+            done_q = sum(1 for name in ext if name.startswith("p.%d." % q))
+            if done_q < nper:
+                nxt.append("p.%d.%d" % (q, done_q))
+        extras = [[]] + [[n] for n in nxt] + [[a, b] for a in nxt for b in nxt if a != b]
+        for quirks in ([], ['large-select'], ['fast-select']):
+            for extra in extras:
+                ptr = model.Model(ch, max_micro=3000, quirks=quirks).run(list(ext) + extra)
+                if ptr and ptr[-1] == ('budget',):
+                    ctx.notes['skipped_unbounded_at_runtime'] += 1
+                    ctx.evaluations += 1
+                    return
         raise Failure("events-not-processed", {"processed": len(ext), "sent": len(sent), "signature": "lost-or-stuck"})
     if not finished:
         if sorted(ext) != sent:
@@ -109,6 +120,11 @@ def check_case(ctx, ch, nprod, nper, mode, sched, engine, variant="san"):
     obs = [e for e in trace.normalise(raw) if e[0] not in ('cfg', 'finished')]
     # the engine was first run to idle, then events poured in: same thing for the model (events are taken at stable points)
     i = trace.first_diff(expm, obs)
+    if i >= 0 and i == len(obs) and len(expm) > len(obs) and (r.get("drain_capped") or r.get("timeout")):
+        # the worker stopped stepping (bounded drain after the last event) while the chart still had a long internal cascade
+        # to run: everything observed agrees with the model, the rest was never executed
+        ctx.notes['observed_prefix_only'] += 1
+        i = -1
     if i >= 0:
         for quirk in ('large-select', 'fast-select'):
             mq = model.Model(ch, max_micro=100000, quirks=[quirk])
